@@ -3,8 +3,12 @@
 //! file. If the child dies on a signal or exceeds its wall budget, the parent
 //! re-executes the in-flight seeds one at a time in isolated children and
 //! reports the one that hangs/dies again as the violation (bounded liveness:
-//! every call returns within the budget). Wall time is only ever used to give
-//! up, never to decide anything inside a run.
+//! every call returns within the budget). Time is only ever used to give
+//! up, never to decide anything inside a run; the budget of a single run is
+//! counted in CPU time of the thread executing it, so that a loaded machine
+//! (other checks, other builds) cannot turn a slow-but-finishing run into a
+//! reported hang. A much larger wall-clock bound backs it up against a
+//! harness deadlock.
 
 use std::fs::OpenOptions;
 use std::io::{Read, Seek, SeekFrom, Write};
@@ -15,8 +19,47 @@ pub const MAX_WORKERS: usize = 64;
 
 pub struct Inflight {
     file: Mutex<std::fs::File>,
-    /// start of each worker's in-flight run (for the in-child watchdog)
-    started: Mutex<Vec<Option<std::time::Instant>>>,
+    /// start of each worker's in-flight run (for the in-child watchdog): wall start, the worker
+    /// thread's CPU clock and its reading at the start
+    started: Mutex<Vec<Option<Started>>>,
+}
+
+#[derive(Clone, Copy)]
+struct Started {
+    wall: std::time::Instant,
+    clock: libc::clockid_t,
+    cpu0: f64,
+}
+
+/// wall-clock backstop = this many times the CPU budget
+pub const WALL_FACTOR: u64 = 6;
+
+fn clock_s(clock: libc::clockid_t) -> Option<f64> {
+    let mut ts = libc::timespec { tv_sec: 0, tv_nsec: 0 };
+    if unsafe { libc::clock_gettime(clock, &mut ts) } == 0 {
+        Some(ts.tv_sec as f64 + ts.tv_nsec as f64 * 1e-9)
+    } else {
+        None
+    }
+}
+
+impl Started {
+    fn now() -> Started {
+        let mut clock: libc::clockid_t = libc::CLOCK_THREAD_CPUTIME_ID;
+        unsafe {
+            // a clock id that other threads (the watchdog) can read
+            let mut c: libc::clockid_t = 0;
+            if libc::pthread_getcpuclockid(libc::pthread_self(), &mut c) == 0 {
+                clock = c;
+            }
+        }
+        Started { wall: std::time::Instant::now(), clock, cpu0: clock_s(clock).unwrap_or(0.0) }
+    }
+    /// seconds this run has been executing: CPU seconds of its thread, or (backstop) wall seconds / WALL_FACTOR
+    fn elapsed_s(&self) -> u64 {
+        let cpu = clock_s(self.clock).map(|t| (t - self.cpu0).max(0.0) as u64).unwrap_or(0);
+        cpu.max(self.wall.elapsed().as_secs() / WALL_FACTOR)
+    }
 }
 
 impl Inflight {
@@ -39,22 +82,22 @@ impl Inflight {
             s.push(' ');
         }
         s.push('\n');
-        self.started.lock().unwrap()[worker % MAX_WORKERS] = Some(std::time::Instant::now());
+        self.started.lock().unwrap()[worker % MAX_WORKERS] = Some(Started::now());
         let mut f = self.file.lock().unwrap();
         let _ = f.seek(SeekFrom::Start(((worker % MAX_WORKERS) * SLOT_LEN) as u64));
         let _ = f.write_all(s.as_bytes());
     }
 
-    /// longest time any in-flight run has been executing (seconds)
+    /// longest time any in-flight run has been executing (CPU seconds of its thread; see `Started::elapsed_s`)
     pub fn longest_inflight_s(&self) -> u64 {
-        self.started.lock().unwrap().iter().flatten().map(|t| t.elapsed().as_secs()).max().unwrap_or(0)
+        self.started.lock().unwrap().iter().flatten().map(|t| t.elapsed_s()).max().unwrap_or(0)
     }
 
     /// keep only the entries of runs that have been executing for at least `min_s` seconds
     pub fn keep_only_slow(&self, min_s: u64) {
         let st = self.started.lock().unwrap().clone();
         for (w, t) in st.iter().enumerate() {
-            if !matches!(t, Some(t) if t.elapsed().as_secs() >= min_s) {
+            if !matches!(t, Some(t) if t.elapsed_s() >= min_s) {
                 let mut s = " ".repeat(SLOT_LEN - 1);
                 s.push('\n');
                 let mut f = self.file.lock().unwrap();
@@ -98,8 +141,24 @@ pub enum ChildEnd {
     TimedOut,
 }
 
+/// CPU seconds (user + system, all threads) consumed so far by process `pid`
+fn process_cpu_s(pid: u32) -> Option<f64> {
+    let s = std::fs::read_to_string(format!("/proc/{pid}/stat")).ok()?;
+    // fields after the parenthesised command name; utime and stime are fields 14 and 15 of the line
+    let rest = &s[s.rfind(')')? + 1..];
+    let f: Vec<&str> = rest.split_whitespace().collect();
+    let (ut, st): (f64, f64) = (f.get(11)?.parse().ok()?, f.get(12)?.parse().ok()?);
+    let hz = unsafe { libc::sysconf(libc::_SC_CLK_TCK) } as f64;
+    Some((ut + st) / if hz > 0.0 { hz } else { 100.0 })
+}
+
 /// run a child with a wall budget (seconds); stdout/stderr are inherited
 pub fn run_child(args: &[String], budget_s: u64) -> ChildEnd {
+    run_child_cpu(args, u64::MAX, budget_s)
+}
+
+/// run a child with a CPU budget and a wall backstop (seconds)
+pub fn run_child_cpu(args: &[String], cpu_budget_s: u64, budget_s: u64) -> ChildEnd {
     let exe = std::env::current_exe().expect("current_exe");
     let mut child = std::process::Command::new(exe)
         .args(args)
@@ -116,7 +175,8 @@ pub fn run_child(args: &[String], budget_s: u64) -> ChildEnd {
                 return ChildEnd::Signalled(st.signal().unwrap_or(0));
             }
             Ok(None) => {
-                if t0.elapsed().as_secs() > budget_s {
+                let cpu = if cpu_budget_s == u64::MAX { 0 } else { process_cpu_s(child.id()).unwrap_or(0.0) as u64 };
+                if t0.elapsed().as_secs() > budget_s || cpu > cpu_budget_s {
                     let _ = child.kill();
                     let _ = child.wait();
                     return ChildEnd::TimedOut;
